@@ -1,19 +1,49 @@
 import Agd.Gen.TrC20
-import Agd.Model.Config
+import Agd.Lemmas.Config
 /-!
 # C20: the section validators of the model accept exactly what the translated source accepts
 
-`Agd.Gen.TrC20.*_validate` are regenerated from `internal/cmd/*.go` on every run (`extract/tr.go`):
+`Agd.Gen.TrC20.*` are regenerated from `internal/cmd/*.go`, `internal/connlimiter/limiter.go` and
+`internal/dnsserver/ratelimit/backoff.go` on every run (`extract/tr.go`).  For a validator the type is
 `Option (Option String)` — outer `none` is a run-time panic (nil dereference), `some none` is
 "accepted", `some (some text)` is a validation error labelled with the source text that made it.
-The theorems relate them to the hand-written `Agd.Config.val*` functions (which every C20 theorem is
-about) and state directly on the translated code that validation never panics and that acceptance
-implies the documented constraints.
+For every translated validator there are three kinds of theorems:
+
+* `…_total`   — validation never panics, whatever the section holds (also when it is missing);
+* `…_accepts` — acceptance by the translated source ⇔ the documented constraints, stated outright;
+* `…_tr`      — the hand-written `Agd.Config.val*` function (which every C20 theorem is about) accepts
+                exactly when the translated validator does (range hypotheses: unsigned fields are ≥ 0).
+
+The `toInternal` conversions and the constructors they feed (`connlimiter.New`, `ratelimit.NewBackoff`)
+are translated too: `…_toInternal_ok` say that an *accepted* section converts without panic into values
+the consumers can work with, `…_panics_iff` give the exact guard under which a conversion panics.
 -/
 namespace Agd.Tie.TrC20
 open Agd.Gen.TrC20 Agd.TrPrelude Agd.Config
 
 theorem translation_complete : translationFailures = [] := by decide
+
+theorem ite_some_some {α : Type} (c : Prop) [Decidable c] (a b : α) :
+    (if c then some a else some b) = some (if c then a else b) := by split <;> rfl
+
+/-- Normalises a translated definition applied to a present section (`some s`). -/
+macro "tr_norm" : tactic => `(tactic|
+  simp only [Option.isNone_some, Option.isNone_none, Bool.false_eq_true, ↓reduceIte, Option.bind_some,
+    Option.bind_none, Option.join_some, Option.join_none, ite_some_some, Option.isSome_some, Option.isSome_none])
+
+theorem posErr_eq_none (p : Prop) [Decidable p] (e : String) : (if p then some e else none) = none ↔ ¬ p := by
+  split <;> simp [*]
+
+theorem firstErr_cons_eq_none (a : Option String) (r : List (Option String)) :
+    firstErr (a :: r) = none ↔ a = none ∧ firstErr r = none := by
+  cases a <;> simp
+
+/-- `cmp.Or` / `errors.Join` over `validatePositive` and `validateProp` results is nil ⇔ every element is. -/
+macro "tr_first" : tactic => `(tactic|
+  simp only [Option.some.injEq, firstErr_cons_eq_none, firstErr_nil, posErr_eq_none, wrapErr_eq_none, and_true])
+
+/-- Closes the arithmetic / propositional leftovers. -/
+macro "tr_close" : tactic => `(tactic| all_goals (first | omega | (intros; omega) | grind))
 
 /-! ## `ratelimit.connection_limit` -/
 
@@ -49,7 +79,7 @@ theorem connLimit_tr (c : Config) (h0 : 0 ≤ c.clStop) (h1 : 0 ≤ c.clResume) 
   · simp [valConn, sect, hp, connLimitConfig_validate]
   · simp only [↓reduceIte]
     rw [connLimit_accepts _ h0 h1]
-    simp only [valConn, sect, hp, ↓reduceIte, firstOf, pos]
+    simp only [valConn, sect, hp, ↓reduceIte, pos]
     cases he : c.clEnabled <;> simp [firstOf]
     repeat' split
     all_goals simp_all [firstOf]
@@ -58,9 +88,970 @@ theorem connLimit_tr (c : Config) (h0 : 0 ≤ c.clStop) (h1 : 0 ≤ c.clResume) 
 example : connLimitConfig_validate (genConn dist) = some none := by decide
 example : connLimitConfig_validate (some ⟨10, 0, true⟩) = some (some "newNotPositiveError(\"resume\", c.Resume)") := by decide
 
+/-! ## `ratelimit.allowlist`, `ratelimit.ipv4` / `ipv6`, `ratelimit.tcp`, `ratelimit.quic` -/
+
+def genAllow (c : Config) : Option S_cmd_allowListConfig :=
+  if c.pAl then some { Type' := c.alType, RefreshIvl := ⟨c.alRefresh⟩ } else none
+
+def genOpts (p : Bool) (count ivl len : Int) : Option S_cmd_rateLimitOptions :=
+  if p then some { Count := count, Interval := ⟨ivl⟩, SubnetKeyLen := len } else none
+
+def genTcp (c : Config) : Option S_cmd_ratelimitTCPConfig :=
+  if c.pTcp then some { MaxPipelineCount := c.tcpMax, Enabled := c.tcpEnabled } else none
+
+def genQuic (c : Config) : Option S_cmd_ratelimitQUICConfig :=
+  if c.pQuic then some { MaxStreamsPerPeer := c.quicMax, Enabled := c.quicEnabled } else none
+
+theorem allow_total (x : Option S_cmd_allowListConfig) : allowListConfig_validate x ≠ none := by
+  cases x with
+  | none => simp [allowListConfig_validate]
+  | some s => unfold allowListConfig_validate; tr_norm; repeat' split
+              all_goals simp
+
+/-- Accepted ⇔ the type is one of the two documented ones and the refresh interval is positive. -/
+theorem allow_accepts (s : S_cmd_allowListConfig) :
+    allowListConfig_validate (some s) = some none ↔
+      ((s.Type' = "backend" ∨ s.Type' = "consul") ∧ 0 < s.RefreshIvl.Duration) := by
+  unfold allowListConfig_validate; tr_norm
+  repeat' split
+  all_goals simp_all
+  tr_close
+
+theorem opts_total (x : Option S_cmd_rateLimitOptions) : rateLimitOptions_validate x ≠ none := by
+  cases x with
+  | none => simp [rateLimitOptions_validate]
+  | some s => unfold rateLimitOptions_validate; tr_norm; exact Option.some_ne_none _
+
+/-- Accepted ⇔ `count ≠ 0` (unsigned), `0 < interval`, `0 < subnet_key_len`. -/
+theorem opts_accepts (s : S_cmd_rateLimitOptions) :
+    rateLimitOptions_validate (some s) = some none ↔
+      (s.Count ≠ 0 ∧ 0 < s.Interval.Duration ∧ 0 < s.SubnetKeyLen) := by
+  unfold rateLimitOptions_validate; tr_norm; tr_first
+  simp only [ne_eq, Int.not_le]
+
+theorem keyLen_total (x : Option S_cmd_rateLimitOptions) (m : Int) :
+    rateLimitOptions_validateSubnetKeyLen x m ≠ none := by
+  cases x with
+  | none => simp [rateLimitOptions_validateSubnetKeyLen]
+  | some s => unfold rateLimitOptions_validateSubnetKeyLen; tr_norm; repeat' split
+              all_goals simp
+
+/-- The key-length bound: skipped on a missing section, otherwise `subnet_key_len ≤ maxLen`. -/
+theorem keyLen_accepts (x : Option S_cmd_rateLimitOptions) (m : Int) :
+    rateLimitOptions_validateSubnetKeyLen x m = some none ↔ ∀ s, x = some s → s.SubnetKeyLen ≤ m := by
+  cases x with
+  | none => simp [rateLimitOptions_validateSubnetKeyLen]
+  | some s =>
+    unfold rateLimitOptions_validateSubnetKeyLen; tr_norm
+    repeat' split
+    all_goals simp_all
+
+theorem tcp_total (x : Option S_cmd_ratelimitTCPConfig) : ratelimitTCPConfig_validate x ≠ none := by
+  cases x with
+  | none => simp [ratelimitTCPConfig_validate]
+  | some s => unfold ratelimitTCPConfig_validate; tr_norm; exact Option.some_ne_none _
+
+/-- Accepted ⇔ `max_pipeline_count ≠ 0` (unsigned; checked whether or not the limit is enabled). -/
+theorem tcp_accepts (s : S_cmd_ratelimitTCPConfig) :
+    ratelimitTCPConfig_validate (some s) = some none ↔ s.MaxPipelineCount ≠ 0 := by
+  unfold ratelimitTCPConfig_validate; tr_norm; tr_first
+
+theorem quic_total (x : Option S_cmd_ratelimitQUICConfig) : ratelimitQUICConfig_validate x ≠ none := by
+  cases x with
+  | none => simp [ratelimitQUICConfig_validate]
+  | some s => unfold ratelimitQUICConfig_validate; tr_norm; exact Option.some_ne_none _
+
+/-- Accepted ⇔ `0 < max_streams_per_peer`. -/
+theorem quic_accepts (s : S_cmd_ratelimitQUICConfig) :
+    ratelimitQUICConfig_validate (some s) = some none ↔ 0 < s.MaxStreamsPerPeer := by
+  unfold ratelimitQUICConfig_validate; tr_norm; tr_first; omega
+
+
+/-! ## `ratelimit` as a whole -/
+
+/-- The `ratelimit` section as the translated code sees it (`refuse_any` is not validated). -/
+def genRl (c : Config) (refuseAny : Bool) : Option S_cmd_rateLimitConfig :=
+  if c.pRl then some
+    { Allowlist := genAllow c, ConnectionLimit := genConn c,
+      IPv4 := genOpts c.pV4 c.v4Count c.v4Ivl c.v4Len, IPv6 := genOpts c.pV6 c.v6Count c.v6Ivl c.v6Len,
+      QUIC := genQuic c, TCP := genTcp c, ResponseSizeEstimate := c.est, BackoffCount := c.bkCount,
+      BackoffDuration := ⟨c.bkDur⟩, BackoffPeriod := ⟨c.bkPeriod⟩, RefuseANY := refuseAny }
+  else none
+
+theorem rateLimit_total (x : Option S_cmd_rateLimitConfig) : rateLimitConfig_validate x ≠ none := by
+  cases x with
+  | none => simp [rateLimitConfig_validate]
+  | some s =>
+    obtain ⟨a1, h1⟩ := Option.ne_none_iff_exists'.mp (allow_total s.Allowlist)
+    obtain ⟨a2, h2⟩ := Option.ne_none_iff_exists'.mp (connLimit_total s.ConnectionLimit)
+    obtain ⟨a3, h3⟩ := Option.ne_none_iff_exists'.mp (opts_total s.IPv4)
+    obtain ⟨a4, h4⟩ := Option.ne_none_iff_exists'.mp (keyLen_total s.IPv4 32)
+    obtain ⟨a5, h5⟩ := Option.ne_none_iff_exists'.mp (opts_total s.IPv6)
+    obtain ⟨a6, h6⟩ := Option.ne_none_iff_exists'.mp (keyLen_total s.IPv6 128)
+    obtain ⟨a7, h7⟩ := Option.ne_none_iff_exists'.mp (quic_total s.QUIC)
+    obtain ⟨a8, h8⟩ := Option.ne_none_iff_exists'.mp (tcp_total s.TCP)
+    unfold rateLimitConfig_validate; tr_norm
+    simp only [h1, h2, h3, h4, h5, h6, h7, h8]; tr_norm
+    exact Option.some_ne_none _
+
+/-- `rateLimitConfig.validate` accepts ⇔ each of the six sub-sections is accepted by its own validator,
+both key lengths fit their address family, and the four scalars are positive. -/
+theorem rateLimit_accepts (s : S_cmd_rateLimitConfig) :
+    rateLimitConfig_validate (some s) = some none ↔
+      (allowListConfig_validate s.Allowlist = some none ∧
+       connLimitConfig_validate s.ConnectionLimit = some none ∧
+       rateLimitOptions_validate s.IPv4 = some none ∧
+       rateLimitOptions_validateSubnetKeyLen s.IPv4 32 = some none ∧
+       rateLimitOptions_validate s.IPv6 = some none ∧
+       rateLimitOptions_validateSubnetKeyLen s.IPv6 128 = some none ∧
+       ratelimitQUICConfig_validate s.QUIC = some none ∧
+       ratelimitTCPConfig_validate s.TCP = some none ∧
+       s.BackoffCount ≠ 0 ∧ 0 < s.BackoffDuration.Duration ∧ 0 < s.BackoffPeriod.Duration ∧
+       s.ResponseSizeEstimate ≠ 0) := by
+  obtain ⟨a1, h1⟩ := Option.ne_none_iff_exists'.mp (allow_total s.Allowlist)
+  obtain ⟨a2, h2⟩ := Option.ne_none_iff_exists'.mp (connLimit_total s.ConnectionLimit)
+  obtain ⟨a3, h3⟩ := Option.ne_none_iff_exists'.mp (opts_total s.IPv4)
+  obtain ⟨a4, h4⟩ := Option.ne_none_iff_exists'.mp (keyLen_total s.IPv4 32)
+  obtain ⟨a5, h5⟩ := Option.ne_none_iff_exists'.mp (opts_total s.IPv6)
+  obtain ⟨a6, h6⟩ := Option.ne_none_iff_exists'.mp (keyLen_total s.IPv6 128)
+  obtain ⟨a7, h7⟩ := Option.ne_none_iff_exists'.mp (quic_total s.QUIC)
+  obtain ⟨a8, h8⟩ := Option.ne_none_iff_exists'.mp (tcp_total s.TCP)
+  unfold rateLimitConfig_validate; tr_norm
+  simp only [h1, h2, h3, h4, h5, h6, h7, h8]; tr_norm; tr_first
+  -- independent of the order of the checks in the source
+  constructor <;> (intro h; simp only [ne_eq, Int.not_le] at h ⊢; simp_all)
+
+
+theorem genOpts_accepts (p : Bool) (count ivl len m : Int) (h0 : 0 ≤ count) :
+    (valOpts false p a b d e count ivl len = [] ∧ valKeyLen false p e len m = []) ↔
+      (rateLimitOptions_validate (genOpts p count ivl len) = some none ∧
+       rateLimitOptions_validateSubnetKeyLen (genOpts p count ivl len) m = some none) := by
+  unfold genOpts
+  cases p
+  · simp [valOpts, valKeyLen, rateLimitOptions_validate]
+  · simp only [↓reduceIte, opts_accepts, keyLen_accepts]
+    simp [valOpts, valKeyLen]
+    omega
+
+/-- The model's `valRatelimit` (repaired tree) accepts exactly when the translated
+`rateLimitConfig.validate` does; the hypotheses say that the unsigned fields are not negative. -/
+theorem rateLimit_tr (c : Config) (r : Bool) (h0 : 0 ≤ c.clStop) (h1 : 0 ≤ c.clResume)
+    (h2 : 0 ≤ c.v4Count) (h3 : 0 ≤ c.v6Count) (h4 : 0 ≤ c.tcpMax) (h5 : 0 ≤ c.bkCount) (h6 : 0 ≤ c.est) :
+    valRatelimit false c = [] ↔ rateLimitConfig_validate (genRl c r) = some none := by
+  unfold genRl
+  cases hp : c.pRl
+  · simp [valRatelimit, hp, rateLimitConfig_validate]
+  · simp only [↓reduceIte, rateLimit_accepts]
+    have e4 := genOpts_accepts (a := .rlV4) (b := .rlV4Count) (d := .rlV4Ivl) (e := .rlV4Len) c.pV4 c.v4Count c.v4Ivl c.v4Len 32 h2
+    have e6 := genOpts_accepts (a := .rlV6) (b := .rlV6Count) (d := .rlV6Ivl) (e := .rlV6Len) c.pV6 c.v6Count c.v6Ivl c.v6Len 128 h3
+    have ec := connLimit_tr c h0 h1
+    have ea : valAllow c = [] ↔ allowListConfig_validate (genAllow c) = some none := by
+      unfold genAllow; cases hq : c.pAl
+      · simp [valAllow, hq, allowListConfig_validate]
+      · simp only [valAllow, hq, ↓reduceIte, allow_accepts, sect_eq_nil, firstOf_cons_eq_nil, firstOf_nil,
+          pos_eq_nil, and_true, true_and]
+        by_cases hb : c.alType = "backend" ∨ c.alType = "consul" <;> simp [hb]
+    have eq : sect c.pQuic .rlQuic [ posInt false .rlQuicMax c.quicMax ] = [] ↔
+        ratelimitQUICConfig_validate (genQuic c) = some none := by
+      unfold genQuic; cases hq : c.pQuic
+      · simp [ratelimitQUICConfig_validate]
+      · simp [quic_accepts]
+    have et : sect c.pTcp .rlTcp [ posInt false .rlTcpMax c.tcpMax ] = [] ↔
+        ratelimitTCPConfig_validate (genTcp c) = some none := by
+      unfold genTcp; cases hq : c.pTcp
+      · simp [ratelimitTCPConfig_validate]
+      · simp [tcp_accepts]; omega
+    unfold valRatelimit; rw [hp]
+    simp only [show ∀ l, sect true F.rl l = firstOf l from fun _ => rfl, firstOf_cons_eq_nil, firstOf_nil, and_true]
+    rw [ea, ec, eq, et]
+    simp only [posInt_false, pos_eq_nil]
+    constructor
+    · rintro ⟨a1, a2, a3, a4, a5, a6, a7, a8, a9, a10, a11, a12⟩
+      have t4 := e4.mp ⟨a3, a4⟩; have t6 := e6.mp ⟨a5, a6⟩
+      exact ⟨a1, a2, t4.1, t4.2, t6.1, t6.2, a7, a8, by omega, a10, a11, by omega⟩
+    · rintro ⟨a1, a2, a3, a4, a5, a6, a7, a8, a9, a10, a11, a12⟩
+      have t4 := e4.mpr ⟨a3, a4⟩; have t6 := e6.mpr ⟨a5, a6⟩
+      exact ⟨a1, a2, t4.1, t4.2, t6.1, t6.2, a7, a8, by omega, a10, a11, by omega⟩
+
+example : rateLimitConfig_validate (genRl dist true) = some none := by decide
+example : rateLimitConfig_validate (genRl { dist with v6Len := 129 } true) ≠ some none := by decide
+
+
+/-! ## `cache` and `cache.ttl_override` -/
+
+def genTtl (c : Config) : Option S_cmd_ttlOverride :=
+  if c.pTtl then some { Min := ⟨c.ttlMin⟩, Enabled := c.ttlEnabled } else none
+
+def genCache (c : Config) : Option S_cmd_cacheConfig :=
+  if c.pCa then some { TTLOverride := genTtl c, Type' := c.caType, Size := c.caSize, ECSSize := c.caEcs } else none
+
+theorem ttl_total (x : Option S_cmd_ttlOverride) : ttlOverride_validate x ≠ none := by
+  cases x with
+  | none => simp [ttlOverride_validate]
+  | some s => unfold ttlOverride_validate; tr_norm; repeat' split
+              all_goals simp
+
+/-- Accepted ⇔ `0 < min` (checked whether or not the override is enabled). -/
+theorem ttl_accepts (s : S_cmd_ttlOverride) : ttlOverride_validate (some s) = some none ↔ 0 < s.Min.Duration := by
+  unfold ttlOverride_validate; tr_norm
+  repeat' split
+  all_goals simp_all
+  tr_close
+
+theorem cache_total (x : Option S_cmd_cacheConfig) : cacheConfig_validate x ≠ none := by
+  cases x with
+  | none => simp [cacheConfig_validate]
+  | some s =>
+    have ht := ttl_total s.TTLOverride
+    unfold cacheConfig_validate; tr_norm
+    repeat' split
+    all_goals simp_all
+
+/-- Accepted ⇔ known type, `0 ≤ size`, `0 < ecs_size` when the type is `ecs`, and the TTL override is
+present with `0 < min`. -/
+theorem cache_accepts (s : S_cmd_cacheConfig) : cacheConfig_validate (some s) = some none ↔
+    ((s.Type' = "simple" ∨ s.Type' = "ecs") ∧ 0 ≤ s.Size ∧ (s.Type' = "ecs" → 0 < s.ECSSize) ∧
+      ∃ t, s.TTLOverride = some t ∧ 0 < t.Min.Duration) := by
+  have ht := ttl_total s.TTLOverride
+  have hs : ttlOverride_validate s.TTLOverride = some none ↔ ∃ t, s.TTLOverride = some t ∧ 0 < t.Min.Duration := by
+    cases h : s.TTLOverride with
+    | none => simp [ttlOverride_validate]
+    | some t => simp [ttl_accepts]
+  rw [← hs]
+  unfold cacheConfig_validate; tr_norm
+  repeat' split
+  all_goals simp_all
+  tr_close
+
+/-- The model's `valCache` (repaired tree) accepts exactly when the translated `cacheConfig.validate` does. -/
+theorem cache_tr (c : Config) : valCache false c = [] ↔ cacheConfig_validate (genCache c) = some none := by
+  unfold genCache
+  cases hp : c.pCa
+  · simp [valCache, hp, cacheConfig_validate]
+  · simp only [↓reduceIte, cache_accepts, genTtl]
+    cases hq : c.pTtl <;> by_cases h1 : c.caType = "simple" <;> by_cases h2 : c.caType = "ecs" <;>
+      simp_all [valCache]
+
+example : cacheConfig_validate (genCache dist) = some none := by decide
+example : cacheConfig_validate (genCache { dist with caType := "ecs", caEcs := 0 }) ≠ some none := by decide
+
+/-! ## `dns`, `dnsdb`, `geoip`, `query_log`, `access`, `backend`, `network` -/
+
+def genDns (c : Config) : Option S_cmd_dnsConfig :=
+  if c.pDns then some { ReadTimeout := ⟨c.dnsRead⟩, TCPIdleTimeout := ⟨c.dnsIdle⟩, WriteTimeout := ⟨c.dnsWrite⟩,
+                        HandleTimeout := ⟨c.dnsHandle⟩, MaxUDPResponseSize := c.dnsUdp } else none
+
+theorem dns_total (x : Option S_cmd_dnsConfig) : dnsConfig_validate x ≠ none := by
+  cases x with
+  | none => simp [dnsConfig_validate]
+  | some s => unfold dnsConfig_validate; tr_norm; repeat' split
+              all_goals simp
+
+/-- Accepted ⇔ the four timeouts are positive, the idle timeout is at most `dnsserver.MaxTCPIdleTimeout`
+and `0 ≠ max_udp_response_size ≤ 65535`. -/
+theorem dns_accepts (s : S_cmd_dnsConfig) : dnsConfig_validate (some s) = some none ↔
+    (0 < s.ReadTimeout.Duration ∧ 0 < s.TCPIdleTimeout.Duration ∧ s.TCPIdleTimeout.Duration ≤ 6553500000000 ∧
+     0 < s.WriteTimeout.Duration ∧ 0 < s.HandleTimeout.Duration ∧
+     s.MaxUDPResponseSize ≠ 0 ∧ s.MaxUDPResponseSize ≤ 65535) := by
+  unfold dnsConfig_validate; tr_norm
+  repeat' split
+  all_goals simp_all
+  tr_close
+
+theorem dns_tr (c : Config) (h0 : 0 ≤ c.dnsUdp) : valDns c = [] ↔ dnsConfig_validate (genDns c) = some none := by
+  unfold genDns
+  cases hp : c.pDns
+  · simp [valDns, hp, dnsConfig_validate]
+  · simp only [↓reduceIte, dns_accepts]
+    simp [valDns, hp, maxIdle, maxMsg]
+    omega
+
+example : dnsConfig_validate (genDns dist) = some none := by decide
+
+def genDb (c : Config) : Option S_cmd_dnsDBConfig :=
+  if c.pDb then some { MaxSize := c.dbMax, Enabled := c.dbEnabled } else none
+
+theorem dnsdb_total (x : Option S_cmd_dnsDBConfig) : dnsDBConfig_validate x ≠ none := by
+  cases x with
+  | none => simp [dnsDBConfig_validate]
+  | some s => unfold dnsDBConfig_validate; tr_norm; repeat' split
+              all_goals simp
+
+theorem dnsdb_accepts (s : S_cmd_dnsDBConfig) : dnsDBConfig_validate (some s) = some none ↔
+    (s.Enabled = true → 0 < s.MaxSize) := by
+  unfold dnsDBConfig_validate; tr_norm
+  repeat' split
+  all_goals simp_all
+  tr_close
+
+theorem dnsdb_tr (c : Config) : valDnsdb c = [] ↔ dnsDBConfig_validate (genDb c) = some none := by
+  unfold genDb
+  cases hp : c.pDb
+  · simp [valDnsdb, hp, dnsDBConfig_validate]
+  · simp only [↓reduceIte, dnsdb_accepts]
+    cases he : c.dbEnabled <;> simp [valDnsdb, hp, he]
+
+def genGeo (c : Config) : Option S_cmd_geoIPConfig :=
+  if c.pGeo then some { HostCacheSize := c.geoHost, IPCacheSize := c.geoIp, RefreshIvl := ⟨c.geoRefresh⟩ } else none
+
+theorem geo_total (x : Option S_cmd_geoIPConfig) : geoIPConfig_validate x ≠ none := by
+  cases x with
+  | none => simp [geoIPConfig_validate]
+  | some s => unfold geoIPConfig_validate; tr_norm; repeat' split
+              all_goals simp
+
+theorem geo_accepts (s : S_cmd_geoIPConfig) : geoIPConfig_validate (some s) = some none ↔
+    (0 < s.HostCacheSize ∧ 0 < s.IPCacheSize ∧ 0 < s.RefreshIvl.Duration) := by
+  unfold geoIPConfig_validate; tr_norm
+  repeat' split
+  all_goals simp_all
+  tr_close
+
+theorem geo_tr (c : Config) : valGeo c = [] ↔ geoIPConfig_validate (genGeo c) = some none := by
+  unfold genGeo
+  cases hp : c.pGeo
+  · simp [valGeo, hp, geoIPConfig_validate]
+  · simp only [↓reduceIte, geo_accepts]; simp [valGeo, hp]
+
+def genQl (c : Config) (fileEnabled : Bool) : Option S_cmd_queryLogConfig :=
+  if c.pQl then some { File := if c.pQlFile then some ⟨fileEnabled⟩ else none } else none
+
+theorem queryLog_total (x : Option S_cmd_queryLogConfig) : queryLogConfig_validate x ≠ none := by
+  cases x with
+  | none => simp [queryLogConfig_validate]
+  | some s => unfold queryLogConfig_validate; tr_norm; repeat' split
+              all_goals simp
+
+theorem queryLog_accepts (s : S_cmd_queryLogConfig) :
+    queryLogConfig_validate (some s) = some none ↔ s.File ≠ none := by
+  unfold queryLogConfig_validate; tr_norm
+  repeat' split
+  all_goals simp_all
+
+theorem queryLog_tr (c : Config) (e : Bool) :
+    valQueryLog c = [] ↔ queryLogConfig_validate (genQl c e) = some none := by
+  unfold genQl
+  cases hp : c.pQl
+  · simp [valQueryLog, hp, queryLogConfig_validate]
+  · simp only [↓reduceIte, queryLog_accepts]
+    cases hq : c.pQlFile <;> simp [valQueryLog, hp, hq]
+
+/-- `accessConfig.validate` has no partial operation: it only reports a missing section
+(whatever the section holds: `a` is any value of the translated structure). -/
+theorem access_tr (c : Config) (a : S_cmd_accessConfig) :
+    valAccess c = [] ↔ accessConfig_validate (if c.pAc then some a else none) = none := by
+  cases hp : c.pAc <;> simp [valAccess, hp, accessConfig_validate]
+
+def genBe (c : Config) : Option S_cmd_backendConfig :=
+  if c.pBe then some { Timeout := ⟨c.beTimeout⟩, RefreshIvl := ⟨c.beRefresh⟩, FullRefreshIvl := ⟨c.beFull⟩,
+                       FullRefreshRetryIvl := ⟨c.beRetry⟩, BillStatIvl := ⟨c.beBill⟩ } else none
+
+theorem backend_total (x : Option S_cmd_backendConfig) : backendConfig_validate x ≠ none := by
+  cases x with
+  | none => simp [backendConfig_validate]
+  | some s => unfold backendConfig_validate; tr_norm; repeat' split
+              all_goals simp
+
+theorem backend_accepts (s : S_cmd_backendConfig) : backendConfig_validate (some s) = some none ↔
+    (0 ≤ s.Timeout.Duration ∧ 0 < s.RefreshIvl.Duration ∧ 0 < s.FullRefreshIvl.Duration ∧
+     0 < s.FullRefreshRetryIvl.Duration ∧ 0 < s.BillStatIvl.Duration) := by
+  unfold backendConfig_validate; tr_norm
+  repeat' split
+  all_goals simp_all
+  tr_close
+
+theorem backend_tr (c : Config) : valBackend c = [] ↔ backendConfig_validate (genBe c) = some none := by
+  unfold genBe
+  cases hp : c.pBe
+  · simp [valBackend, hp, backendConfig_validate]
+  · simp only [↓reduceIte, backend_accepts]; simp [valBackend, hp]
+
+def genNw (c : Config) : Option S_cmd_network :=
+  if c.pNw then some { SndBufSize := c.nwSnd, RcvBufSize := c.nwRcv } else none
+
+theorem network_total (x : Option S_cmd_network) : network_validate x ≠ none := by
+  cases x with
+  | none => simp [network_validate]
+  | some s => unfold network_validate; tr_norm; repeat' split
+              all_goals simp
+
+theorem network_accepts (s : S_cmd_network) : network_validate (some s) = some none ↔
+    (s.SndBufSize ≤ 2147483647 ∧ s.RcvBufSize ≤ 2147483647) := by
+  unfold network_validate; tr_norm
+  repeat' split
+  all_goals simp_all
+  tr_close
+
+theorem network_tr (c : Config) : valNetwork c = [] ↔ network_validate (genNw c) = some none := by
+  unfold genNw
+  cases hp : c.pNw
+  · simp [valNetwork, hp, network_validate]
+  · simp only [↓reduceIte, network_accepts]; simp [valNetwork, hp, maxBuf]
+
+
+/-! ## `upstream.healthcheck`, upstream servers -/
+
+def genHc (c : Config) : Option S_cmd_upstreamHealthcheckConfig :=
+  if c.pHc then some { DomainTmpl := c.hcTmpl, Interval := ⟨c.hcIvl⟩, Timeout := ⟨c.hcTimeout⟩,
+                       BackoffDuration := ⟨c.hcBackoff⟩, Enabled := c.hcEnabled } else none
+
+theorem healthcheck_total (x : Option S_cmd_upstreamHealthcheckConfig) :
+    upstreamHealthcheckConfig_validate x ≠ none := by
+  cases x with
+  | none => simp [upstreamHealthcheckConfig_validate]
+  | some s => unfold upstreamHealthcheckConfig_validate; tr_norm; repeat' split
+              all_goals simp
+
+/-- Accepted ⇔ disabled, or a non-empty domain template and three positive durations. -/
+theorem healthcheck_accepts (s : S_cmd_upstreamHealthcheckConfig) :
+    upstreamHealthcheckConfig_validate (some s) = some none ↔
+      (s.Enabled = true → s.DomainTmpl ≠ "" ∧ 0 < s.Interval.Duration ∧ 0 < s.Timeout.Duration ∧
+        0 < s.BackoffDuration.Duration) := by
+  unfold upstreamHealthcheckConfig_validate; tr_norm
+  repeat' split
+  all_goals simp_all
+  tr_close
+
+/-- Whenever the model's `valUpstream` accepts, the translated health-check validator accepts. -/
+theorem healthcheck_tr (c : Config) (h : valUpstream c = []) :
+    upstreamHealthcheckConfig_validate (genHc c) = some none := by
+  unfold genHc
+  simp only [valUpstream, sect_eq_nil, firstOf_cons_eq_nil, firstOf_nil, and_true] at h
+  obtain ⟨_, _, _, _, _, hp, hh⟩ := h
+  simp only [hp, ↓reduceIte, healthcheck_accepts]
+  intro he; simp [he] at hh; simpa using hh
+
+/-- The health-check part of the model (the last element of `valUpstream`) is exactly the translated validator. -/
+theorem healthcheck_tr_iff (c : Config) :
+    sect c.pHc .upHc
+        [ if c.hcEnabled then
+            firstOf [ (if c.hcTmpl = "" then [(.upHcTmpl, .empty)] else []),
+                      pos .upHcIvl c.hcIvl, pos .upHcTimeout c.hcTimeout, pos .upHcBackoff c.hcBackoff ]
+          else [] ] = [] ↔
+      upstreamHealthcheckConfig_validate (genHc c) = some none := by
+  unfold genHc
+  cases hp : c.pHc
+  · simp [upstreamHealthcheckConfig_validate]
+  · simp only [↓reduceIte, healthcheck_accepts]
+    cases he : c.hcEnabled <;> simp
+
+/-- One upstream server: whatever `splitUpstreamURL` returns, accepted ⇔ `0 < timeout` and the address
+was parsed without error; the timeout is checked first. -/
+theorem upstreamServer_accepts (s : S_cmd_upstreamServerConfig) (o : String × Unit × Option String) :
+    upstreamServerConfig_validate (some s) o = some none ↔ (0 < s.Timeout.Duration ∧ o.2.2 = none) := by
+  unfold upstreamServerConfig_validate; tr_norm
+  repeat' split
+  all_goals simp_all
+  tr_close
+
+theorem upstreamServer_total (x : Option S_cmd_upstreamServerConfig) (o : String × Unit × Option String) :
+    upstreamServerConfig_validate x o ≠ none := by
+  cases x with
+  | none => simp [upstreamServerConfig_validate]
+  | some s => unfold upstreamServerConfig_validate; tr_norm; repeat' split
+              all_goals simp
+
+/-- The model's per-server timeout check is the translated validator on a parsable address. -/
+theorem upstreamServer_tr (f : F) (addr n : String) (t : Int) :
+    pos f t = [] ↔ upstreamServerConfig_validate (some ⟨addr, ⟨t⟩⟩) (n, (), none) = some none := by
+  simp [upstreamServer_accepts]
+
+/-! ## `filters` and `filters.rule_list_cache` -/
+
+def genRlc (c : Config) : Option S_cmd_fltRuleListCache :=
+  if c.pRlc then some { Size := c.rlcSize, Enabled := c.rlcEnabled } else none
+
+def genFilters (c : Config) : Option S_cmd_filtersConfig :=
+  if c.pFl then some
+    { RuleListCache := genRlc c, CustomFilterCacheSize := c.flCustom, SafeSearchCacheSize := c.flSafe,
+      ResponseTTL := ⟨c.flRespTtl⟩, RefreshIvl := ⟨c.flRefresh⟩, RefreshTimeout := ⟨c.flRefreshTo⟩,
+      IndexRefreshTimeout := ⟨c.flIndexTo⟩, RuleListRefreshTimeout := ⟨c.flRuleTo⟩, MaxSize := c.flMax,
+      EDEEnabled := c.flEde, SDEEnabled := c.flSde }
+  else none
+
+theorem rlc_total (x : Option S_cmd_fltRuleListCache) : fltRuleListCache_validate x ≠ none := by
+  cases x with
+  | none => simp [fltRuleListCache_validate]
+  | some s => unfold fltRuleListCache_validate; tr_norm; repeat' split
+              all_goals simp
+
+/-- Accepted ⇔ `0 < size` (checked whether or not the cache is enabled). -/
+theorem rlc_accepts (s : S_cmd_fltRuleListCache) : fltRuleListCache_validate (some s) = some none ↔ 0 < s.Size := by
+  unfold fltRuleListCache_validate; tr_norm
+  repeat' split
+  all_goals simp_all
+  tr_close
+
+theorem filters_total (x : Option S_cmd_filtersConfig) : filtersConfig_validate x ≠ none := by
+  cases x with
+  | none => simp [filtersConfig_validate]
+  | some s =>
+    cases hr : fltRuleListCache_validate s.RuleListCache with
+    | none => exact absurd hr (rlc_total _)
+    | some r =>
+      unfold filtersConfig_validate; tr_norm
+      rw [hr]
+      cases he : s.EDEEnabled <;> cases hs : s.SDEEnabled <;> cases r <;> exact Option.some_ne_none _
+
+/-- Accepted ⇔ the two cache sizes and five durations are positive, `max_size ≠ 0`, `sde` is not enabled
+without `ede`, and the rule-list cache section is accepted. -/
+theorem filters_accepts (s : S_cmd_filtersConfig) : filtersConfig_validate (some s) = some none ↔
+    (0 < s.CustomFilterCacheSize ∧ 0 < s.SafeSearchCacheSize ∧ 0 < s.ResponseTTL.Duration ∧
+     0 < s.RefreshIvl.Duration ∧ 0 < s.RefreshTimeout.Duration ∧ 0 < s.IndexRefreshTimeout.Duration ∧
+     0 < s.RuleListRefreshTimeout.Duration ∧ s.MaxSize ≠ 0 ∧ ¬ (s.EDEEnabled = false ∧ s.SDEEnabled = true) ∧
+     fltRuleListCache_validate s.RuleListCache = some none) := by
+  cases hr : fltRuleListCache_validate s.RuleListCache with
+  | none => exact absurd hr (rlc_total _)
+  | some r =>
+    unfold filtersConfig_validate; tr_norm
+    rw [hr]
+    cases he : s.EDEEnabled <;> cases hs : s.SDEEnabled <;> cases r <;>
+      simp only [Bool.not_true, Bool.not_false, ↓reduceIte, Option.isSome_some, Option.isSome_none,
+        Bool.false_eq_true, List.cons_append, List.nil_append, Option.some.injEq, firstErr_cons_eq_none,
+        firstErr_nil, posErr_eq_none, reduceCtorEq, and_true, and_false, and_self,
+        not_true_eq_false, not_false_eq_true, ne_eq, Int.not_le]
+
+theorem filters_tr (c : Config) (h0 : 0 ≤ c.flMax) :
+    valFilters false c = [] ↔ filtersConfig_validate (genFilters c) = some none := by
+  unfold genFilters
+  cases hp : c.pFl
+  · simp [valFilters, hp, filtersConfig_validate]
+  · simp only [↓reduceIte, filters_accepts, genRlc]
+    cases hq : c.pRlc
+    · simp [valFilters, hp, hq, fltRuleListCache_validate]
+    · simp only [↓reduceIte, rlc_accepts]
+      cases he : c.flEde <;> cases hs : c.flSde <;> simp [valFilters, hp, hq, he, hs] <;> omega
+
+example : filtersConfig_validate (genFilters dist) = some none := by decide
+example : filtersConfig_validate (genFilters { dist with flEde := false }) ≠ some none := by decide
+
+/-! ## `safe_browsing` / `adult_blocking` -/
+
+def genSb (p : Bool) (host : String) (size ttl refresh timeout : Int) : Option S_cmd_safeBrowsingConfig :=
+  if p then some { BlockHost := host, CacheSize := size, CacheTTL := ⟨ttl⟩, RefreshIvl := ⟨refresh⟩,
+                   RefreshTimeout := ⟨timeout⟩ } else none
+
+theorem safeBrowsing_total (x : Option S_cmd_safeBrowsingConfig) : safeBrowsingConfig_validate x ≠ none := by
+  cases x with
+  | none => simp [safeBrowsingConfig_validate]
+  | some s => unfold safeBrowsingConfig_validate; tr_norm; repeat' split
+              all_goals simp
+
+theorem safeBrowsing_accepts (s : S_cmd_safeBrowsingConfig) : safeBrowsingConfig_validate (some s) = some none ↔
+    (s.BlockHost ≠ "" ∧ 0 < s.CacheSize ∧ 0 < s.CacheTTL.Duration ∧ 0 < s.RefreshIvl.Duration ∧
+     0 < s.RefreshTimeout.Duration) := by
+  unfold safeBrowsingConfig_validate; tr_norm
+  repeat' split
+  all_goals simp_all
+  tr_close
+
+/-- The model's `valSb` (used for both `safe_browsing` and `adult_blocking`) is the translated validator
+on a section whose block host is set (the model does not vary the host). -/
+theorem safeBrowsing_tr (p : Bool) (s fs ft fr fo : F) (host : String) (size ttl refresh timeout : Int)
+    (hh : host ≠ "") :
+    valSb p s fs ft fr fo size ttl refresh timeout = [] ↔
+      safeBrowsingConfig_validate (genSb p host size ttl refresh timeout) = some none := by
+  unfold genSb
+  cases p
+  · simp [valSb, safeBrowsingConfig_validate]
+  · simp only [↓reduceIte, safeBrowsing_accepts]; simp [valSb, hh]
+
+/-! ## `check.kv`, DDR ports, interface listeners, `web` -/
+
+def genKv (c : Config) : Option S_cmd_remoteKVConfig :=
+  if c.pKv then some { Type' := c.kvType, TTL := ⟨c.kvTtl⟩ } else none
+
+theorem kv_total (x : Option S_cmd_remoteKVConfig) : remoteKVConfig_validate x ≠ none := by
+  cases x with
+  | none => simp [remoteKVConfig_validate]
+  | some s => unfold remoteKVConfig_validate; tr_norm; repeat' split
+              all_goals simp
+
+/-- Accepted ⇔ one of the four types with its own TTL range. -/
+theorem kv_accepts (s : S_cmd_remoteKVConfig) : remoteKVConfig_validate (some s) = some none ↔
+    ((s.Type' = "backend" ∧ 0 < s.TTL.Duration) ∨ s.Type' = "cache" ∨
+     (s.Type' = "consul" ∧ 10000000000 ≤ s.TTL.Duration ∧ s.TTL.Duration ≤ 86400000000000) ∨
+     (s.Type' = "redis" ∧ 1000000 ≤ s.TTL.Duration)) := by
+  unfold remoteKVConfig_validate; tr_norm
+  repeat' split
+  all_goals simp_all
+  tr_close
+
+theorem kv_tr (c : Config) : valKv c = [] ↔ remoteKVConfig_validate (genKv c) = some none := by
+  unfold genKv
+  rw [valKv_eq_nil]
+  cases hp : c.pKv
+  · simp [remoteKVConfig_validate]
+  · simp only [↓reduceIte, kv_accepts]; simp [consulMin, consulMax, redisMin]
+
+/-- `ddrRecord.validatePorts` does not check its receiver ("r must be otherwise valid"): nil panics. -/
+theorem ports_nil : ddrRecord_validatePorts none = none := by decide
+
+theorem ports_total (s : S_cmd_ddrRecord) : ddrRecord_validatePorts (some s) ≠ none := by
+  unfold ddrRecord_validatePorts; tr_norm; repeat' split
+  all_goals simp
+
+theorem ports_accepts (s : S_cmd_ddrRecord) : ddrRecord_validatePorts (some s) = some none ↔
+    (¬ (s.HTTPSPort ≠ 0 ∧ s.HTTPSPort = s.TLSPort) ∧ ¬ (s.HTTPSPort = 0 ∧ s.QUICPort = 0 ∧ s.TLSPort = 0)) := by
+  unfold ddrRecord_validatePorts; tr_norm
+  repeat' split
+  all_goals simp_all
+  tr_close
+
+theorem ports_tr (a b : F) (path : String) (https quic tls : Int) :
+    valPorts a b https quic tls = [] ↔ ddrRecord_validatePorts (some ⟨path, https, quic, tls⟩) = some none := by
+  rw [ports_accepts, valPorts_eq_nil]
+
+theorem ifaceListener_total (x : Option S_cmd_interfaceListener) : interfaceListener_validate x ≠ none := by
+  cases x with
+  | none => simp [interfaceListener_validate]
+  | some s => unfold interfaceListener_validate; tr_norm; repeat' split
+              all_goals simp
+
+theorem ifaceListener_accepts (s : S_cmd_interfaceListener) :
+    interfaceListener_validate (some s) = some none ↔ (s.Port ≠ 0 ∧ s.Interface ≠ "") := by
+  unfold interfaceListener_validate; tr_norm
+  repeat' split
+  all_goals simp_all
+
+/-- The model's port check of one listener is the translated validator on a named interface. -/
+theorem ifaceListener_tr (f : F) (iface : String) (port : Int) (hi : iface ≠ "") :
+    (if port = 0 then [(f, Kind.empty)] else []) = [] ↔
+      interfaceListener_validate (some ⟨iface, port⟩) = some none := by
+  rw [ifaceListener_accepts]; simp [hi]
+
+/-- `web`: a missing section is accepted; otherwise the timeout is checked before any sub-section and
+the section is accepted ⇔ `0 < timeout` and the six sub-validators (opaque here) all accept. -/
+theorem web_accepts (x : Option S_cmd_webConfig) (o1 o2 o3 o4 o5 o6 : Option String) :
+    webConfig_validate x o1 o2 o3 o4 o5 o6 = some none ↔
+      ∀ s, x = some s → (0 < s.Timeout.Duration ∧ o1 = none ∧ o2 = none ∧ o3 = none ∧ o4 = none ∧
+        o5 = none ∧ o6 = none) := by
+  cases x with
+  | none => simp [webConfig_validate]
+  | some s =>
+    unfold webConfig_validate; tr_norm
+    repeat' split
+    all_goals simp_all
+    tr_close
+
+theorem web_total (x : Option S_cmd_webConfig) (o1 o2 o3 o4 o5 o6 : Option String) :
+    webConfig_validate x o1 o2 o3 o4 o5 o6 ≠ none := by
+  cases x with
+  | none => simp [webConfig_validate]
+  | some s => unfold webConfig_validate; tr_norm; repeat' split
+              all_goals simp
+
+/-- A non-positive timeout is reported whatever the sub-sections hold. -/
+theorem web_timeout_first (s : S_cmd_webConfig) (o1 o2 o3 o4 o5 o6 : Option String) (h : s.Timeout.Duration ≤ 0) :
+    webConfig_validate (some s) o1 o2 o3 o4 o5 o6 = some (some "newNotPositiveError(\"timeout\", c.Timeout)") := by
+  unfold webConfig_validate; tr_norm; simp [h]
+
+theorem web_tr (c : Config) (w : S_cmd_webConfig) (hw : w.Timeout = ⟨c.webTimeout⟩) :
+    valWeb c = [] ↔ webConfig_validate (if c.pWeb then some w else none) none none none none none none = some none := by
+  rw [web_accepts]
+  cases hp : c.pWeb <;> simp [valWeb, hp, hw]
+
+
+/-! ## Conversions to the internal configuration and the constructors they feed -/
+
+/-- `connlimiter.New` never panics; it refuses exactly `stop = 0` or `resume > stop`, and otherwise the
+limiter starts empty and accepting with the configured thresholds. -/
+theorem limiter_new (cfg : S_connlimiter_Config) :
+    connlimiter_New (some cfg) = some
+      (if cfg.Stop = 0 ∨ cfg.Resume > cfg.Stop then (none, some "fmt.Errorf(\"bad limiter config: %+v\", c)")
+       else (some ⟨some ⟨0, cfg.Stop, cfg.Resume, true⟩⟩, none)) := by
+  unfold connlimiter_New; tr_norm
+  by_cases h1 : cfg.Stop = 0 <;> by_cases h2 : cfg.Resume > cfg.Stop <;> simp [h1, h2]
+
+theorem limiter_new_nil : connlimiter_New none = some (none, some "fmt.Errorf(\"bad limiter config: %+v\", c)") := by
+  decide
+
+/-- `connLimitConfig.toInternal` panics exactly when the limiter is enabled with `stop = 0` or
+`resume > stop` — the condition of the model's `build` (`Panic.connLimiter`). -/
+theorem connLimit_toInternal_panics_iff (s : S_cmd_connLimitConfig) :
+    connLimitConfig_toInternal (some s) = none ↔ (s.Enabled = true ∧ (s.Stop = 0 ∨ s.Resume > s.Stop)) := by
+  unfold connLimitConfig_toInternal; tr_norm
+  rw [limiter_new]; tr_norm
+  cases he : s.Enabled <;> by_cases h1 : s.Stop = 0 <;> by_cases h2 : s.Resume > s.Stop <;> simp [h1, h2]
+
+/-- An accepted `connection_limit` section never makes `toInternal` panic: no limiter when disabled,
+otherwise a limiter with the configured thresholds. -/
+theorem connLimit_toInternal_ok (s : S_cmd_connLimitConfig) (h0 : 0 ≤ s.Stop) (h1 : 0 ≤ s.Resume)
+    (h : connLimitConfig_validate (some s) = some none) :
+    connLimitConfig_toInternal (some s) =
+      some (if s.Enabled then some ⟨some ⟨0, s.Stop, s.Resume, true⟩⟩ else none) := by
+  rw [connLimit_accepts s h0 h1] at h
+  unfold connLimitConfig_toInternal; tr_norm
+  rw [limiter_new]; tr_norm
+  cases he : s.Enabled
+  · simp
+  · have h1 : ¬ s.Stop = 0 := by simp [he] at h; omega
+    have h2 : ¬ s.Resume > s.Stop := by simp [he] at h; omega
+    simp [h1, h2]
+
+/-- The same, on the model's configuration: `build` raises `Panic.connLimiter` exactly when the
+translated conversion panics. -/
+theorem connLimit_toInternal_build (c : Config) :
+    connLimitConfig_toInternal (some ⟨c.clStop, c.clResume, c.clEnabled⟩) = none ↔
+      (c.clEnabled = true ∧ (c.clStop = 0 ∨ c.clResume > c.clStop)) :=
+  connLimit_toInternal_panics_iff _
+
+/-- `cacheConfig.toInternal` dereferences `ttl_override` without a check: it panics exactly when the
+section or its TTL override is missing … -/
+theorem cache_toInternal_panics_iff (x : Option S_cmd_cacheConfig) :
+    cacheConfig_toInternal x = none ↔ ∀ s, x = some s → s.TTLOverride = none := by
+  cases x with
+  | none => simp [cacheConfig_toInternal]
+  | some s =>
+    unfold cacheConfig_toInternal; tr_norm
+    cases ht : s.TTLOverride <;> by_cases h1 : s.Size = 0 <;> by_cases h2 : s.Type' = "simple" <;> simp [h1, h2, ht]
+
+def cacheTypeCode : CacheType → Int | .none => 1 | .simple => 2 | .ecs => 3
+
+/-- What the conversion computes when the TTL override is there: every field goes where it belongs. -/
+theorem cache_toInternal_eq (s : S_cmd_cacheConfig) (t : S_cmd_ttlOverride) (ht : s.TTLOverride = some t) :
+    cacheConfig_toInternal (some s) = some (some
+      { MinTTL := t.Min.Duration, ECSCount := s.ECSSize, NoECSCount := s.Size,
+        Type' := if s.Size = 0 then 1 else if s.Type' = "simple" then 2 else 3,
+        OverrideCacheTTL := t.Enabled }) := by
+  unfold cacheConfig_toInternal; tr_norm; rw [ht]; tr_norm
+  by_cases h1 : s.Size = 0 <;> by_cases h2 : s.Type' = "simple" <;> simp [h1, h2]
+
+/-- … which validation excludes: an accepted section converts without panic, and a cache that will be
+built (`simple` = 2, `ecs` = 3) gets positive sizes (`gcache.New` panics otherwise). -/
+theorem cache_toInternal_ok (s : S_cmd_cacheConfig) (h : cacheConfig_validate (some s) = some none) :
+    ∃ r, cacheConfig_toInternal (some s) = some (some r) ∧ 0 < r.MinTTL ∧
+      r.ECSCount = s.ECSSize ∧ r.NoECSCount = s.Size ∧
+      (r.Type' = 1 ↔ s.Size = 0) ∧ (r.Type' = 2 → 0 < r.NoECSCount) ∧
+      (r.Type' = 3 → 0 < r.NoECSCount ∧ 0 < r.ECSCount) := by
+  rw [cache_accepts] at h
+  obtain ⟨hty, hsz, hecs, t, ht, hmin⟩ := h
+  refine ⟨_, cache_toInternal_eq s t ht, hmin, rfl, rfl, ?_⟩
+  by_cases h1 : s.Size = 0
+  · simp [h1]
+  · by_cases h2 : s.Type' = "simple"
+    · simp [h1, h2]; omega
+    · have h3 : s.Type' = "ecs" := by simpa [h2] using hty
+      have := hecs h3
+      simp [h1, h2]; omega
+
+/-- The translated cache type is the model's `cacheType`. -/
+theorem cache_toInternal_type (c : Config) (t : S_cmd_ttlOverride) (r : S_dnssvc_CacheConfig)
+    (h : cacheConfig_toInternal (some ⟨some t, c.caType, c.caSize, c.caEcs⟩) = some (some r)) :
+    r.Type' = cacheTypeCode (cacheType c) := by
+  unfold cacheConfig_toInternal at h; revert h; tr_norm
+  unfold cacheType
+  by_cases h1 : c.caSize = 0 <;> by_cases h2 : c.caType = "simple" <;> simp [h1, h2, cacheTypeCode] <;>
+    (intro h; rw [← h])
+
+/-- `rateLimitConfig.toInternal` followed by `ratelimit.NewBackoff`: each field of the limiter comes from
+the property of the section (and address family) it is documented to come from. -/
+theorem rateLimit_toInternal_eq (s : S_cmd_rateLimitConfig) (v4 v6 : S_cmd_rateLimitOptions)
+    (e4 : s.IPv4 = some v4) (e6 : s.IPv6 = some v6) :
+    rateLimitConfig_toInternal (some s) = some (some
+      { Period := s.BackoffPeriod.Duration, Duration := s.BackoffDuration.Duration, Count := s.BackoffCount,
+        ResponseSizeEstimate := s.ResponseSizeEstimate,
+        IPv4Count := v4.Count, IPv4Interval := v4.Interval.Duration, IPv4SubnetKeyLen := v4.SubnetKeyLen,
+        IPv6Count := v6.Count, IPv6Interval := v6.Interval.Duration, IPv6SubnetKeyLen := v6.SubnetKeyLen,
+        RefuseANY := s.RefuseANY }) := by
+  unfold rateLimitConfig_toInternal; tr_norm; rw [e4, e6]; tr_norm
+
+theorem newBackoff_eq (b : S_ratelimit_BackoffConfig) :
+    ratelimit_NewBackoff (some b) = some (some
+      { respSzEst := b.ResponseSizeEstimate, count := b.Count,
+        ipv4Count := b.IPv4Count, ipv4Interval := b.IPv4Interval, ipv4SubnetKeyLen := b.IPv4SubnetKeyLen,
+        ipv6Count := b.IPv6Count, ipv6Interval := b.IPv6Interval, ipv6SubnetKeyLen := b.IPv6SubnetKeyLen,
+        refuseANY := b.RefuseANY }) := by
+  unfold ratelimit_NewBackoff; tr_norm
+
+/-- An accepted `ratelimit` section converts without panic, and the limiter that `NewBackoff` builds from
+it holds: a non-zero response-size estimate (the divisor in `CountResponses`), non-zero window counts,
+positive intervals and back-off times, key lengths within the address family. -/
+theorem rateLimit_toInternal_ok (s : S_cmd_rateLimitConfig) (h : rateLimitConfig_validate (some s) = some none) :
+    ∃ b l, rateLimitConfig_toInternal (some s) = some (some b) ∧ ratelimit_NewBackoff (some b) = some (some l) ∧
+      0 < b.Period ∧ 0 < b.Duration ∧ l.respSzEst ≠ 0 ∧ l.count ≠ 0 ∧
+      l.ipv4Count ≠ 0 ∧ 0 < l.ipv4Interval ∧ 0 < l.ipv4SubnetKeyLen ∧ l.ipv4SubnetKeyLen ≤ 32 ∧
+      l.ipv6Count ≠ 0 ∧ 0 < l.ipv6Interval ∧ 0 < l.ipv6SubnetKeyLen ∧ l.ipv6SubnetKeyLen ≤ 128 := by
+  rw [rateLimit_accepts] at h
+  obtain ⟨_, _, h4, k4, h6, k6, _, _, hc, hd, hp, he⟩ := h
+  cases e4 : s.IPv4 with
+  | none => rw [e4] at h4; simp [rateLimitOptions_validate] at h4
+  | some v4 =>
+  cases e6 : s.IPv6 with
+  | none => rw [e6] at h6; simp [rateLimitOptions_validate] at h6
+  | some v6 =>
+  rw [e4, opts_accepts] at h4; rw [e6, opts_accepts] at h6
+  rw [e4, keyLen_accepts] at k4; rw [e6, keyLen_accepts] at k6
+  have k4 := k4 v4 rfl; have k6 := k6 v6 rfl
+  refine ⟨_, _, rateLimit_toInternal_eq s v4 v6 e4 e6, newBackoff_eq _, ?_⟩
+  simp only []
+  omega
+
+/-- Both conversions panic on a nil section (their contract is "c must be valid"). -/
+theorem toInternal_nil : rateLimitConfig_toInternal none = none ∧ connLimitConfig_toInternal none = none ∧
+    cacheConfig_toInternal none = none ∧ network_toInternal none = none := by decide
+
+/-- `network.toInternal`: both control configurations receive the send size as send size and the receive
+size as receive size; for an accepted section the values fit `int32`. -/
+theorem network_toInternal_ok (s : S_cmd_network) :
+    network_toInternal (some s) =
+      some (some ⟨s.RcvBufSize, s.SndBufSize⟩, some ⟨s.RcvBufSize, s.SndBufSize⟩) := by
+  unfold network_toInternal; tr_norm
+
+example : (cacheConfig_toInternal (genCache dist)).isSome = true := by decide
+example : cacheConfig_toInternal (genCache { dist with pTtl := false }) = none := by decide
+
+
+/-! ## The per-query consumer of the key lengths -/
+
+/-- `Backoff.subnetKey` asks `netip.Addr.Prefix` for exactly one prefix, of the length configured for
+the client's address family (`ip.Is4()` decides), whatever the opaque calls return … -/
+theorem subnetKey_prefix_len (l : S_ratelimit_Backoff) (is4 : Bool) (p4 p6 : Unit × Option String) (k : String)
+    (r : String × List (String × List String)) (h : Backoff_subnetKey l is4 p4 k p6 = some r) :
+    r = (k, [("Prefix", [toString (if is4 then l.ipv4SubnetKeyLen else l.ipv6SubnetKeyLen)])]) := by
+  unfold Backoff_subnetKey at h
+  cases is4 <;> simp only [Bool.false_eq_true, ↓reduceIte, List.nil_append] at h ⊢ <;>
+    split at h <;> first | exact (Option.some.inj h).symm | exact absurd h (by simp)
+
+/-- … and it panics exactly when that call reports an error (`netip` does so iff the length does not
+fit the family — which `rateLimit_toInternal_ok` excludes for an accepted configuration). -/
+theorem subnetKey_panics_iff (l : S_ratelimit_Backoff) (is4 : Bool) (p4 p6 : Unit × Option String) (k : String) :
+    Backoff_subnetKey l is4 p4 k p6 = none ↔ (if is4 then p4.2 else p6.2) ≠ none := by
+  unfold Backoff_subnetKey
+  cases is4 <;> simp only [Bool.false_eq_true, ↓reduceIte] <;> split <;>
+    simp_all [Option.isSome_iff_ne_none]
+
+/-! ## Reporting -/
+
+/-- A missing section is reported as `no value` by every section validator instead of dereferencing nil
+(`web` is optional: a missing section is accepted). -/
+theorem missing_reported :
+    connLimitConfig_validate none = some (some "no value") ∧ ttlOverride_validate none = some (some "no value") ∧
+    cacheConfig_validate none = some (some "no value") ∧ rateLimitOptions_validate none = some (some "no value") ∧
+    ratelimitTCPConfig_validate none = some (some "no value") ∧
+    ratelimitQUICConfig_validate none = some (some "no value") ∧
+    allowListConfig_validate none = some (some "no value") ∧ rateLimitConfig_validate none = some (some "no value") ∧
+    dnsConfig_validate none = some (some "no value") ∧ dnsDBConfig_validate none = some (some "no value") ∧
+    upstreamHealthcheckConfig_validate none = some (some "no value") ∧
+    fltRuleListCache_validate none = some (some "no value") ∧ filtersConfig_validate none = some (some "no value") ∧
+    queryLogConfig_validate none = some (some "no value") ∧ geoIPConfig_validate none = some (some "no value") ∧
+    accessConfig_validate none = some "no value" ∧ safeBrowsingConfig_validate none = some (some "no value") ∧
+    backendConfig_validate none = some (some "no value") ∧ remoteKVConfig_validate none = some (some "no value") ∧
+    network_validate none = some (some "no value") ∧ interfaceListener_validate none = some (some "no value") ∧
+    (∀ o, upstreamServerConfig_validate none o = some (some "no value")) ∧
+    (∀ o1 o2 o3 o4 o5 o6, webConfig_validate none o1 o2 o3 o4 o5 o6 = some none) := by
+  refine ⟨rfl, rfl, rfl, rfl, rfl, rfl, rfl, rfl, rfl, rfl, rfl, rfl, rfl, rfl, rfl, rfl, rfl, rfl, rfl, rfl, rfl, ?_, ?_⟩
+  · intro o; rfl
+  · intros; rfl
+
+/-- The error of a `ratelimit` sub-section is reported under the name of that sub-section, in the order of
+the configuration file: with `allowlist` and `connection_limit` accepted, whatever `ipv4` reports is
+what the whole section reports, prefixed with `ipv4: ` (sections after it are not consulted for the text). -/
+theorem rateLimit_names_ipv4 (s : S_cmd_rateLimitConfig) (e : String)
+    (h1 : allowListConfig_validate s.Allowlist = some none)
+    (h2 : connLimitConfig_validate s.ConnectionLimit = some none)
+    (h3 : rateLimitOptions_validate s.IPv4 = some (some e)) :
+    rateLimitConfig_validate (some s) = some (some ("ipv4" ++ ": " ++ e)) := by
+  obtain ⟨a4, h4⟩ := Option.ne_none_iff_exists'.mp (keyLen_total s.IPv4 32)
+  obtain ⟨a5, h5⟩ := Option.ne_none_iff_exists'.mp (opts_total s.IPv6)
+  obtain ⟨a6, h6⟩ := Option.ne_none_iff_exists'.mp (keyLen_total s.IPv6 128)
+  obtain ⟨a7, h7⟩ := Option.ne_none_iff_exists'.mp (quic_total s.QUIC)
+  obtain ⟨a8, h8⟩ := Option.ne_none_iff_exists'.mp (tcp_total s.TCP)
+  unfold rateLimitConfig_validate; tr_norm
+  simp only [h1, h2, h3, h4, h5, h6, h7, h8]; tr_norm
+  simp only [wrapErr, Option.map_none, Option.map_some, firstErr_none, firstErr_some]
+
 end Agd.Tie.TrC20
 
 #print axioms Agd.Tie.TrC20.translation_complete
+#print axioms Agd.Tie.TrC20.ite_some_some
+#print axioms Agd.Tie.TrC20.posErr_eq_none
+#print axioms Agd.Tie.TrC20.firstErr_cons_eq_none
 #print axioms Agd.Tie.TrC20.connLimit_total
 #print axioms Agd.Tie.TrC20.connLimit_accepts
 #print axioms Agd.Tie.TrC20.connLimit_tr
+#print axioms Agd.Tie.TrC20.allow_total
+#print axioms Agd.Tie.TrC20.allow_accepts
+#print axioms Agd.Tie.TrC20.opts_total
+#print axioms Agd.Tie.TrC20.opts_accepts
+#print axioms Agd.Tie.TrC20.keyLen_total
+#print axioms Agd.Tie.TrC20.keyLen_accepts
+#print axioms Agd.Tie.TrC20.tcp_total
+#print axioms Agd.Tie.TrC20.tcp_accepts
+#print axioms Agd.Tie.TrC20.quic_total
+#print axioms Agd.Tie.TrC20.quic_accepts
+#print axioms Agd.Tie.TrC20.rateLimit_total
+#print axioms Agd.Tie.TrC20.rateLimit_accepts
+#print axioms Agd.Tie.TrC20.genOpts_accepts
+#print axioms Agd.Tie.TrC20.rateLimit_tr
+#print axioms Agd.Tie.TrC20.ttl_total
+#print axioms Agd.Tie.TrC20.ttl_accepts
+#print axioms Agd.Tie.TrC20.cache_total
+#print axioms Agd.Tie.TrC20.cache_accepts
+#print axioms Agd.Tie.TrC20.cache_tr
+#print axioms Agd.Tie.TrC20.dns_total
+#print axioms Agd.Tie.TrC20.dns_accepts
+#print axioms Agd.Tie.TrC20.dns_tr
+#print axioms Agd.Tie.TrC20.dnsdb_total
+#print axioms Agd.Tie.TrC20.dnsdb_accepts
+#print axioms Agd.Tie.TrC20.dnsdb_tr
+#print axioms Agd.Tie.TrC20.geo_total
+#print axioms Agd.Tie.TrC20.geo_accepts
+#print axioms Agd.Tie.TrC20.geo_tr
+#print axioms Agd.Tie.TrC20.queryLog_total
+#print axioms Agd.Tie.TrC20.queryLog_accepts
+#print axioms Agd.Tie.TrC20.queryLog_tr
+#print axioms Agd.Tie.TrC20.access_tr
+#print axioms Agd.Tie.TrC20.backend_total
+#print axioms Agd.Tie.TrC20.backend_accepts
+#print axioms Agd.Tie.TrC20.backend_tr
+#print axioms Agd.Tie.TrC20.network_total
+#print axioms Agd.Tie.TrC20.network_accepts
+#print axioms Agd.Tie.TrC20.network_tr
+#print axioms Agd.Tie.TrC20.healthcheck_total
+#print axioms Agd.Tie.TrC20.healthcheck_accepts
+#print axioms Agd.Tie.TrC20.healthcheck_tr
+#print axioms Agd.Tie.TrC20.healthcheck_tr_iff
+#print axioms Agd.Tie.TrC20.upstreamServer_accepts
+#print axioms Agd.Tie.TrC20.upstreamServer_total
+#print axioms Agd.Tie.TrC20.upstreamServer_tr
+#print axioms Agd.Tie.TrC20.rlc_total
+#print axioms Agd.Tie.TrC20.rlc_accepts
+#print axioms Agd.Tie.TrC20.filters_total
+#print axioms Agd.Tie.TrC20.filters_accepts
+#print axioms Agd.Tie.TrC20.filters_tr
+#print axioms Agd.Tie.TrC20.safeBrowsing_total
+#print axioms Agd.Tie.TrC20.safeBrowsing_accepts
+#print axioms Agd.Tie.TrC20.safeBrowsing_tr
+#print axioms Agd.Tie.TrC20.kv_total
+#print axioms Agd.Tie.TrC20.kv_accepts
+#print axioms Agd.Tie.TrC20.kv_tr
+#print axioms Agd.Tie.TrC20.ports_nil
+#print axioms Agd.Tie.TrC20.ports_total
+#print axioms Agd.Tie.TrC20.ports_accepts
+#print axioms Agd.Tie.TrC20.ports_tr
+#print axioms Agd.Tie.TrC20.ifaceListener_total
+#print axioms Agd.Tie.TrC20.ifaceListener_accepts
+#print axioms Agd.Tie.TrC20.ifaceListener_tr
+#print axioms Agd.Tie.TrC20.web_accepts
+#print axioms Agd.Tie.TrC20.web_total
+#print axioms Agd.Tie.TrC20.web_timeout_first
+#print axioms Agd.Tie.TrC20.web_tr
+#print axioms Agd.Tie.TrC20.limiter_new
+#print axioms Agd.Tie.TrC20.limiter_new_nil
+#print axioms Agd.Tie.TrC20.connLimit_toInternal_panics_iff
+#print axioms Agd.Tie.TrC20.connLimit_toInternal_ok
+#print axioms Agd.Tie.TrC20.connLimit_toInternal_build
+#print axioms Agd.Tie.TrC20.cache_toInternal_panics_iff
+#print axioms Agd.Tie.TrC20.cache_toInternal_eq
+#print axioms Agd.Tie.TrC20.cache_toInternal_ok
+#print axioms Agd.Tie.TrC20.cache_toInternal_type
+#print axioms Agd.Tie.TrC20.rateLimit_toInternal_eq
+#print axioms Agd.Tie.TrC20.newBackoff_eq
+#print axioms Agd.Tie.TrC20.rateLimit_toInternal_ok
+#print axioms Agd.Tie.TrC20.toInternal_nil
+#print axioms Agd.Tie.TrC20.network_toInternal_ok
+#print axioms Agd.Tie.TrC20.subnetKey_prefix_len
+#print axioms Agd.Tie.TrC20.subnetKey_panics_iff
+#print axioms Agd.Tie.TrC20.missing_reported
+#print axioms Agd.Tie.TrC20.rateLimit_names_ipv4
